@@ -144,6 +144,11 @@ def check(tier: str) -> Result:
         verdict = None if any(z.kind != "const" for z in zs) else all(z.args[0] == 0 for z in zs)
         res.add("C09.R8", rsite, rfn, "State.step_count is 0 after reset", verdict, f"values {[txt(z, 2, 30) for z in zs]}")
         n_cnt += 1
+    # ---- R9: unit-move tables are applied by addition (rules/move_rules.py)
+    from . import move_rules
+    n_mv = move_rules.add_obligations(res, tree, "C09.R9")
+    if n_mv < 12:
+        raise AnalysisError(f"only {n_mv} applications of a unit-move table found (hand-confirmed minimum 12)")
     res.analysed = {"table_pairings": n, "axis_typed_sites": n_axis, "mask_vs_step_validity": n_b}
     res.assumptions = ["direction names in the code carry their usual meaning (up = previous row, left = previous column)",
                        "PacMan is excluded from the naming convention (its x/y naming is transposed); only sibling agreement is checked there"]
